@@ -39,6 +39,7 @@ type xcase struct {
 	backend      string // peer peerperm os osalloc req reqalloc
 	regular      bool
 	ro           bool // read APIs: the file is opened read-only (Client.Open), which the request server serves through FileReader
+	modeKind     int  // peer backends, regular = false: 0 character device, 1 permissions without type bits, 2 no permissions attribute
 	statSize     int  // peer backends: what STAT / FSTAT report as the size - 0: the true size; k+1: k
 	rfc          int  // readfromc: the concurrency ARGUMENT - 0: conc itself; 1: 0; 2: -1; 3: conc+7 (documented: below one or above the client's maximum means the maximum, which is conc)
 }
@@ -62,7 +63,7 @@ func planStr(m map[uint64]uint32) string {
 func (x *xcase) kv() []string {
 	return []string{kvs("api", x.api), kvi("p", x.p), kvi("conc", x.conc), kvb("cr", x.cr), kvb("cw", x.cw), kvb("fstat", x.fst),
 		kvi("flen", x.flen), kvi("off", x.off), kvi("len", x.n), kvi("maxtx", x.maxtx), kvs("rfail", planStr(x.rfail)), kvs("wfail", planStr(x.wfail)),
-		kvs("src", x.src), kvb("regular", x.regular), kvs("be", x.backend), kvb("ro", x.ro), kvi("rfc", x.rfc), kvi("statsz", x.statSize)}
+		kvs("src", x.src), kvb("regular", x.regular), kvs("be", x.backend), kvb("ro", x.ro), kvi("rfc", x.rfc), kvi("statsz", x.statSize), kvi("modekind", x.modeKind)}
 }
 
 type sizedReader struct{ r *bytes.Reader }
@@ -116,7 +117,7 @@ func runX(x *xcase, seed int64) (*xresult, error) {
 	switch x.backend {
 	case "peer", "peerperm":
 		c1, c2 := net.Pipe()
-		peer = &filePeer{store: append([]byte(nil), initial...), maxTx: x.maxtx, rfail: x.rfail, wfail: x.wfail, regular: x.regular, statSize: x.statSize,
+		peer = &filePeer{store: append([]byte(nil), initial...), maxTx: x.maxtx, rfail: x.rfail, wfail: x.wfail, regular: x.regular, statSize: x.statSize, modeKind: x.modeKind,
 			permute: x.backend == "peerperm", rng: rand.New(rand.NewSource(seed)), window: x.conc + 1}
 		go peer.serve(c2)
 		var err error
